@@ -76,14 +76,19 @@ static enum asn_transfer_syntax CSYN[4] = { ATS_DER, ATS_CANONICAL_XER, ATS_UNAL
 static const char *CSYNN[4] = { "der", "cxer", "uper", "oer" };
 struct encs { unsigned char *b[4]; ssize_t n[4]; };
 NI static void enc_all(asn_TYPE_descriptor_t *td, void *s, struct encs *E) {
-    for(int i = 0; i < 4; i++) { asn_encode_to_new_buffer_result_t r = asn_encode_to_new_buffer(0, CSYN[i], td, s); E->b[i] = r.buffer; E->n[i] = r.buffer ? r.result.encoded : -1; }
+    for(int i = 0; i < 4; i++) {
+        if(pm_masked(CSYNN[i])) { E->b[i] = 0; E->n[i] = -1; continue; }
+        asn_encode_to_new_buffer_result_t r = asn_encode_to_new_buffer(0, CSYN[i], td, s); E->b[i] = r.buffer; E->n[i] = r.buffer ? r.result.encoded : -1;
+    }
 }
 NI static void enc_free(struct encs *E) { for(int i = 0; i < 4; i++) free(E->b[i]); }
 
 struct xres { long transforms, viol; int nrec; char rec[8][200]; long kinds[8]; };
 NI static void xviol(struct xres *R, const char *fmt, ...) {
     R->viol++; if(R->nrec >= 8) return;
-    va_list ap; va_start(ap, fmt); vsnprintf(R->rec[R->nrec++], 200, fmt, ap); va_end(ap);
+    va_list ap; va_start(ap, fmt); vsnprintf(R->rec[R->nrec], 200, fmt, ap); va_end(ap);
+    for(char *p = R->rec[R->nrec]; *p; p++) if(*p == ' ') *p = '_';   /* type names such as "BIT STRING" */
+    R->nrec++;
 }
 NI static void check_same(asn_TYPE_descriptor_t *td, void *s0, void *r, struct encs *base, const char *what, int nodeidx, struct xres *R) {
     struct encs E; enc_all(td, r, &E);
@@ -228,6 +233,30 @@ NI static void corrupt_mode(asn_TYPE_descriptor_t *td, const unsigned char *in, 
         }
     }
     ASN_STRUCT_FREE(*td, r);
+}
+
+/* canon2 TYPE DERHEX VARIANTHEX : structures decoded from two BER forms of one value must encode identically */
+void cmd_canon2(char **a, int na) {
+    asn_TYPE_descriptor_t *td = find_type(a[1]);
+    if(!td || na < 4) { printf("canon2 ERR args\n"); return; }
+    unsigned char *in; size_t n = unhex(a[2], &in);
+    unsigned char *in2; size_t n2 = unhex(a[3], &in2);
+    struct xres R; memset(&R, 0, sizeof R);
+    void *s0 = 0, *r = 0;
+    if(asn_decode(0, ATS_BER, td, &s0, in, n).code != RC_OK || asn_decode(0, ATS_BER, td, &r, in2, n2).code != RC_OK) {
+        /* a rejected variant is C03's subject */
+        printf("canon2 transforms=0 viol=0 rejected=1\n");
+    } else {
+        struct encs base; enc_all(td, s0, &base);
+        nnodes = 1; nodes[0].td = td; nodes[0].ptr = r;
+        check_same(td, s0, r, &base, "decoded_from_variant", 0, &R);
+        enc_free(&base);
+        printf("canon2 transforms=%ld viol=%ld", R.transforms, R.viol);
+        for(int i = 0; i < R.nrec; i++) printf(" v=%s", R.rec[i]);
+        printf("\n");
+    }
+    ASN_STRUCT_FREE(*td, s0); ASN_STRUCT_FREE(*td, r);
+    exact_free(in, n); exact_free(in2, n2);
 }
 
 void cmd_xform(char **a, int na) {
